@@ -62,6 +62,11 @@ def structural(ctx, rec, obj, w):
     return None
 
 
+def refusal(rec, status, detail, w):
+    """A refusal (e.g. derivative of abs of a vector, no geometric dimension) is not a wrong value."""
+    return status == "mismatch:raise"
+
+
 def run(ctx, args):
     ctx.rule = (
         "TLC enumerates programs [expressions, spatial derivative operators (possibly nested / followed by "
@@ -74,7 +79,7 @@ def run(ctx, args):
     ctx.assume("geometric quantities (grad of SpatialCoordinate etc.) are checked in the geometry part below on affine cells")
     only = os.environ.get("VERIF_SLICES")
     sls = [sl for sl in slices(ctx.tier) if not only or sl.name in only.split(",")]
-    run_slices(ctx, sls, "C03", post=structural)
+    run_slices(ctx, sls, "C03", post=structural, accept=refusal)
 
 
 def replay(ctx, doc):
